@@ -1004,6 +1004,45 @@ class ExprMixin:
 
         return self.bind(self.ev(gen.iter, st), f)
 
+    def abstract_dict_comprehension(self, st, node, gen, seq):
+        """{k(x): v(x) for x in xs} over a symbolic xs: key and value expressions are executed
+        once for an ARBITRARY element (what they may raise, for any element; an empty xs skips
+        them), and the result is a dict about whose contents nothing is known."""
+        import hashlib
+
+        tagname = hashlib.sha1((ast.dump(node.key) + ast.dump(node.value)).encode()).hexdigest()[:8]
+        n = len(st.log)
+        out = []
+        s_empty = st.fork().assume(z3.Length(seq) == 0)
+        if feasible(s_empty.pc):
+            out.append((s_empty, s_empty.alloc(HDict(items={}))))
+        s1 = st.fork().assume(z3.Length(seq) > 0)
+        if not feasible(s1.pc):
+            return out
+        idx = z3.Int(f"dictcomp_ix_{tagname}_{n}")
+        s1.assume(z3.And(idx >= 0, idx < z3.Length(seq)))
+        elem = VU(seq[idx])
+        names = _target_names(gen.target)
+        saved = {nm: s1.locals.get(nm) for nm in names}
+        for s2, _ in self.assign(gen.target, elem, s1):
+            for s3, kv in self.ev(node.key, s2):
+                if isinstance(kv, Raised):
+                    out.append((s3, kv))
+                    continue
+                for s4, vv in self.ev(node.value, s3):
+                    for nm, old_ in saved.items():
+                        if old_ is None:
+                            s4.locals.pop(nm, None)
+                        else:
+                            s4.locals[nm] = old_
+                    if isinstance(vv, Raised):
+                        out.append((s4, vv))
+                        continue
+                    pres = z3.Const(f"dictcomp_{tagname}_{n}_present", z3.ArraySort(U, B))
+                    vals = z3.Const(f"dictcomp_{tagname}_{n}_val", z3.ArraySort(U, U))
+                    out.append((s4, s4.alloc(HDict(items={}, present=pres, val=vals))))
+        return out
+
     def abstract_comprehension(self, st, node, gen, itv, kind):
         """[f(x) for x in xs] over a symbolic xs: result is map$<elt>(xs, captured...)"""
         tail = []
@@ -1012,6 +1051,8 @@ class ExprMixin:
             tail = list(st.deref(itv).tail)
         else:
             seq = self.as_seq(st, itv)
+        if seq is not None and not gen.ifs and kind == "dict" and not tail:
+            return self.abstract_dict_comprehension(st, node, gen, seq)
         if seq is None or gen.ifs or kind == "dict":
             raise Unsupported(f"comprehension over {itv!r} at line {node.lineno}")
         key = ast.dump(node.elt) + "|" + ast.dump(gen.target)
